@@ -25,7 +25,7 @@ func (v *Vue) evalAttributes(ctx VueContext, n *html.Node) (map[string]any, erro
 	// First pass: collect static attributes and evaluate bound ones
 	for _, a := range n.Attr {
 		key := a.Key
-		val := strings.TrimSpace(a.Val)
+		val := strings.Trim(a.Val, " \t\n\r\f") // HTML whitespace only: a no-break space is content
 
 		boundValue := val
 		boundName := key
